@@ -1,5 +1,6 @@
 """C05 — tasks are read as written and survive serialisation unchanged (writer/reader agreement)."""
 import re
+from ..flow import cond_atoms
 
 from ..facts import walk, strip, strip_casts, lv, show, writes, calls, int_value, table_py, root_var
 from ..q import call_sites, const_eval, str_value
@@ -17,7 +18,8 @@ EXPLANATION = (
     "keyword the serialiser emits next to a read of that field. R05.3 nominal typing of the set containers at every call (shared with C19). "
     "R05.4 sentinel encodings of umask / max-simul round-trip over the whole field domain (shared with C12). R05.5: for every stream "
     "class, each sub-stream the class frees and clones is also serialised. R05.2b: a first-one-wins guard in a parser case tests the very "
-    "field that case stores. R05.4b: the RRULE writer treats exactly the parser's default COUNT/INTERVAL as `do not write`. R05.6: the "
+    "field that case stores. R05.4b: the RRULE writer treats exactly the parser's default COUNT/INTERVAL as `do not write`. R05.7: every copy of a calendar-level value into the event at END:VEVENT is "
+    "controlled by a test that exactly that field is unset. R05.6: the "
     "buffered writer fdprintf() never hands a consumed va_list to a second formatting call (records that do not fit the 4096-byte buffer).")
 NOT_DECIDED = ("equality of the remaining occurrence sequence after a write/read cycle at every consumption prefix (run-time stream state); "
                "value formats of individual fields beyond the encodings checked; the behaviour itself")
@@ -475,6 +477,48 @@ def r05_5(prog, rep):
                          "exceptions of a filter) is lost whenever the task is written (echsq submit, checkpoint, echse merge)" % (cname, s_, slots["seria"]))
 
 
+def r05_7(prog, rep):
+    """Calendar-level values are defaults *only for what the event leaves unset*: in the parser's END handler every copy
+    `event.F = calendar.F` is controlled by a test that exactly F of the event is unset.  A copy of an aggregate guarded by one of its
+    members overwrites the other members the event did set."""
+    rid = "R05.7"
+    f = prog.fn("_ical_proc", "evical.c")
+    cfg = f.cfg
+    n = 0
+    for b, i, x, line in cfg.all_elems():
+        for l, kind, nn in writes(x):
+            if kind != "assign" or nn.get("k") != "bin" or nn["op"] != "=":
+                continue
+            lt, rt = lv(l), lv(strip_casts(cfg.resolve(nn["r"])))
+            m1, m2 = re.match(r"^(\w+)->ve\.t\.(.+)$", lt or ""), re.match(r"^(\w+)->globve\.t\.(.+)$", rt or "")
+            if not (m1 and m2 and m1.group(2) == m2.group(2)):
+                continue
+            n += 1
+            key = "_ical_proc/default(%s)" % m1.group(2)
+            # the controlling test: the unique predecessor branch of this block
+            guards = set()
+            for p_ in cfg.lpreds.get(b, []):
+                c = cfg.cond(p_)
+                if c is None:
+                    continue
+                si = cfg.blocks[p_].succs.index(b)
+                for a in cond_atoms(c, si == 0):
+                    if len(a) == 3 and a[0] == "false":
+                        guards.add(a[1])
+                    if len(a) == 5 and a[0] == "==" and a[2] == "0":
+                        guards.add(a[1])
+            if lt in guards:
+                rep.ok(rid, key, f.loc(nn.get("line", line)), "copied from the calendar only when %s is unset" % lt)
+            elif guards:
+                rep.fail(rid, key, f.loc(nn.get("line", line)),
+                         "the calendar-level %s is copied over the event's when %s is unset: whatever else the event set inside %s "
+                         "(working directory, shell, group) is overwritten by the calendar's value" % (m1.group(2), sorted(guards)[0], lt))
+            else:
+                rep.fail(rid, key, f.loc(nn.get("line", line)), "the calendar-level %s overwrites the event's unconditionally" % m1.group(2))
+    if n < 4:
+        rep.broken_("rule=R05.7 expected >=4 default copies at END:VEVENT, found %d" % n)
+
+
 def run(prog, rep, tier, snap):
     rep.rule("R05.1", "every emitted keyword/parameter/part/component/method is accepted by the reader", 50)
     r05_1(prog, rep)
@@ -488,6 +532,8 @@ def run(prog, rep, tier, snap):
     r05_4b(prog, rep)
     rep.rule("R05.5", "every freed/cloned sub-stream is serialised", 3)
     r05_5(prog, rep)
+    rep.rule("R05.7", "calendar-level defaults fill only what the event leaves unset", 4)
+    r05_7(prog, rep)
     from ..rules import valist
     rep.rule("R05.6", "the buffered writer never formats from a consumed va_list (records larger than the write buffer)", 1)
     valist.r_valist(prog, rep, "R05.6", only=("fdprintf",))
